@@ -205,6 +205,9 @@ func c20Parse(r *Run, s string, class string, coq bool) {
 		r.Dist["parse:uses-day-unit"]++
 	}
 	r.Dist["str:"+class]++
+	if lok {
+		r.Dist["str:"+class+":accepted-by-logg"]++
+	}
 	nontrivial := strings.Contains(s, ".")
 	canon := "P|" + c.SHex
 	if coq {
@@ -337,14 +340,16 @@ var c20LongInts = []string{"9223372036854775807", "9223372036854775808", "922337
 	"9223372036854", "9223372036855", "9223372036854775", "9223372036854776", "00000000000000000000001", "99999999999999999999"}
 
 func c20IntPart(rg *Rng) string {
-	switch c := rg.Intn(20); {
-	case c < 2:
+	switch c := rg.Intn(40); {
+	case c < 4:
 		return ""
-	case c < 12:
+	case c < 26:
 		return c20Digits(rg, 1+rg.Intn(3))
-	case c < 16:
-		return c20Digits(rg, 4+rg.Intn(8))
-	case c < 18:
+	case c < 36:
+		return c20Digits(rg, 4+rg.Intn(4))
+	case c < 37:
+		return c20Digits(rg, 8+rg.Intn(6))
+	case c < 39:
 		return c20LongInts[rg.Intn(len(c20LongInts))]
 	default:
 		return c20Digits(rg, 17+rg.Intn(6))
@@ -384,7 +389,7 @@ func c20ValidString(rg *Rng) string {
 	for i := 0; i < n; i++ {
 		sb.WriteString(c20IntPart(rg))
 		sb.WriteString(c20FracPart(rg))
-		if rg.Chance(4) {
+		if rg.Chance(2) {
 			sb.WriteString(c20BadUnits[rg.Intn(len(c20BadUnits))])
 		} else {
 			sb.WriteString(c20Units[rg.Intn(len(c20Units))])
